@@ -783,4 +783,115 @@ theorem tie_sqlcWSetCacheWithExpireFacts : sqlcWSetCacheWithExpireFacts = [
   "return cc.SetCacheWithExpireCtx(context.Background(), key, val, expire)",
   "call cc.SetCacheWithExpireCtx(context.Background(), key, val, expire)"] := by rfl
 
+/-! ## round 4: several instances — where every constructor's barrier comes from -/
+
+/-- where a value comes from, as the extractor classified it. -/
+inductive Src where
+  | pkgvar (pkg : String) (decl : String)   -- a package-level variable, initialised once (`decl` = name=initialiser), never written again
+  | caller (k : Nat)                        -- whatever the caller built (his barrier number k)
+  | other (what : String)                   -- anything else, e.g. a fresh `syncx.NewSingleFlight()` per call
+  deriving DecidableEq, Repr
+
+def srcOf (pkg ctor : String) (tbl : List (String × List String)) : Src :=
+  match tbl.lookup ctor with
+  | some ["pkgvar", decl] => .pkgvar pkg decl
+  | some l => .other (ctor ++ "/" ++ "/".intercalate l)
+  | none => .other (ctor ++ "/?")
+
+/-- the barrier of a constructor, read off the source. -/
+def srcBarrier : Multi.Ctor → Src
+  | .newConn => srcOf "sqlc" "NewConn" sqlcCtorBarriers
+  | .newNodeConn => srcOf "sqlc" "NewNodeConn" sqlcCtorBarriers
+  | .newModel => srcOf "monc" "NewModel" moncCtorBarriers
+  | .newNodeModel => srcOf "monc" "NewNodeModel" moncCtorBarriers
+  | .newConnWithCache k => .caller k
+  | .newModelWithCache k => .caller k
+
+/-- **the model's barrier structure is the source's**: two constructors put their instances under the same
+barrier in the model (`Multi.barrierOf`) exactly if the barrier arguments read off the source are the same object —
+NewConn and NewNodeConn both hand on the package-level `singleFlights` of sqlc (initialised once with
+`syncx.NewSingleFlight()`, written nowhere else in the package), NewModel and NewNodeModel the package-level
+`singleFlight` of monc.  A constructor that creates its own barrier (seeded change C06-3) falsifies this. -/
+theorem tie_ctorBarriers (a b : Multi.Ctor) : Multi.barrierOf a = Multi.barrierOf b ↔ srcBarrier a = srcBarrier b := by
+  have h1 : srcBarrier .newConn = .pkgvar "sqlc" "singleFlights=syncx.NewSingleFlight()" := by decide
+  have h2 : srcBarrier .newNodeConn = .pkgvar "sqlc" "singleFlights=syncx.NewSingleFlight()" := by decide
+  have h3 : srcBarrier .newModel = .pkgvar "monc" "singleFlight=syncx.NewSingleFlight()" := by decide
+  have h4 : srcBarrier .newNodeModel = .pkgvar "monc" "singleFlight=syncx.NewSingleFlight()" := by decide
+  cases a <;> cases b <;> simp [Multi.barrierOf, h1, h2, h3, h4] <;> simp [srcBarrier]
+
+/-- the classification itself, with the initialiser: one barrier per package, created once. -/
+theorem tie_barrierVars :
+    sqlcCtorBarriers = [("NewConn", ["pkgvar", "singleFlights=syncx.NewSingleFlight()"]), ("NewNodeConn", ["pkgvar", "singleFlights=syncx.NewSingleFlight()"])]
+    ∧ moncCtorBarriers = [("NewModel", ["pkgvar", "singleFlight=syncx.NewSingleFlight()"]), ("NewNodeModel", ["pkgvar", "singleFlight=syncx.NewSingleFlight()"])]
+    ∧ newSingleFlightFacts = ["return &flightGroup{ calls: make(map[string]*call), }"] := by decide
+
+/-- the barrier travels unchanged: cache.New hands ITS parameter to every NewNode (single node and every node of
+a cluster), NewNode stores ITS parameter in the node (`doTake` runs under `c.barrier.DoEx`: `tie_doTakeFacts`). -/
+theorem tie_barrierHandedOn : cacheNewBarrierArgs = ["param:barrier", "param:barrier"]
+    ∧ newNodeBarrierField = ["param:barrier"] := by decide
+
+/-- the with-cache constructors keep the cache — hence the barrier — they are given; the other constructors go
+through them with the cache they just built. -/
+theorem tie_withCacheKeepsCache : newConnWithCacheField = ["param:c"] ∧ newConnPassesCache = ["expr:local cc", "expr:local c"]
+    ∧ moncNewModelField = ["param:c"] ∧ moncWithCachePasses = ["param:c", "expr:local c", "expr:local c"]
+    ∧ moncMustNewModelFacts = ["call NewModel(uri, db, collection, c, opts)", "return model"]
+    ∧ moncMustNewNodeModelFacts = ["call NewNodeModel(uri, db, collection, rds, opts)", "return model"] := by decide
+
+/-- the ring of a cacheCluster hashes `fmt.Sprint(node)` = the server ADDRESS: two caches built by `cache.New` over
+the same ClusterConf dispatch every key alike (`PropsInstances.SameServers`). -/
+theorem tie_nodeStringFacts : nodeStringFacts = ["return c.rds.Addr"] := by decide
+
+/-! ## round 4: decision-making conditions, translated from the source, equal the model's decisions -/
+
+/-- `cacheNode.DelCtx`: nothing to do for no keys; the per-key loop exactly for more than one key on a cluster-type
+Redis — `Model.nodeDel`'s two tests, for every key list and both Redis types. -/
+theorem tie_delCtxConds (ks : List CKey) (cluster : Bool) :
+    (delCtxCondEmpty ks.length = true ↔ ks = [])
+    ∧ (delCtxCondLoop ks.length (if cluster then redisClusterType else redisNodeType) = true ↔ (ks.length > 1 ∧ cluster = true)) := by
+  constructor
+  · cases ks <;> simp [delCtxCondEmpty]; omega
+  · cases cluster <;> simp [delCtxCondLoop, redisClusterType, redisNodeType] <;> omega
+
+/-- … and for EVERY value of `c.rds.Type`, not only the two constants: the loop is taken iff the type is "cluster". -/
+theorem tie_delCtxCondLoop_all (n : Int) (typ : String) : delCtxCondLoop n typ = (decide (n > 1) && typ == "cluster") := rfl
+
+/-- `SetWithExpireCtx`: a non-positive expire falls back to the configured expiry (`Model.setOp`: `if e ≤ 0`; ms vs ns). -/
+theorem tie_setWithExpireCond (ms : Int) : setWithExpireCond (ms * 1000000) = decide (ms ≤ 0) := by
+  simp [setWithExpireCond]; omega
+
+/-- `ttlSeconds`: the rounded seconds are kept iff they exceed 1, else 1 (`Model.ttlSecondsFixed`). -/
+theorem tie_ttlSecondsCond (e j : Nat) :
+    ttlSecondsFixed e j = if ttlSecondsCond (ttlSecNs e j : Nat) then ttlSecNs e j else 1 := by
+  simp only [ttlSecondsFixed, ttlSecondsCond, decide_eq_true_eq]
+  split <;> split <;> omega
+
+/-- `doGetCache`: an empty value is a miss, exactly "*" is the not-found marker. -/
+theorem tie_doGetCacheConds (n : Int) (data : String) :
+    (doGetCacheCondEmpty n = true ↔ n = 0) ∧ (doGetCacheCondPlaceholder data = true ↔ data = "*") := by
+  simp [doGetCacheCondEmpty, doGetCacheCondPlaceholder]
+
+/-- `cache.New`: fatal for no node or no weight; a plain cacheNode for exactly one node, a cluster otherwise. -/
+theorem tie_newConds (n w : Int) : (newCondFatal n w = true ↔ (n = 0 ∨ w ≤ 0)) ∧ (newCondSingle n = true ↔ n = 1) := by
+  simp [newCondFatal, newCondSingle]
+
+/-- `mathx.NewUnstable`: the two clamps (operators, constants, assigned values) are the model's `clampDev`. -/
+theorem tie_newUnstableClamp (d : Rat) :
+    clampDev d = (if newUnstableCondLow d then 0 else if newUnstableCondHigh d then 1 else d)
+    ∧ newUnstableAssigns = ["deviation = 0", "deviation = 1"] := by
+  refine ⟨?_, by decide⟩
+  simp [clampDev, newUnstableCondLow, newUnstableCondHigh]
+
+/-- `Unstable.AroundDuration` / `AroundInt`: the jittered value before truncation, as a term, for all arguments. -/
+theorem tie_aroundExpr (dev r base : Rat) :
+    aroundExpr dev r base = (1 + dev - 2 * dev * r) * base ∧ aroundIntExpr dev r base = (1 + dev - 2 * dev * r) * base :=
+  ⟨rfl, rfl⟩
+
+/-- … and with the deviation `p/qd` and the draw `j/1000` it is exactly the rational number whose floor is the
+model's `aroundNs p qd base j` (`⌊((qd + p)·1000 − 2·p·j)·base / (qd·1000)⌋`; the numerator is non-negative for
+`p ≤ qd`, `j ≤ 1000`, so the model's natural-number subtraction is the rational one). -/
+theorem tie_aroundExpr_rational (p qd j base : Rat) (hq : qd ≠ 0) :
+    aroundExpr (p / qd) (j / 1000) base = ((qd + p) * 1000 - 2 * p * j) * base / (qd * 1000) := by
+  unfold aroundExpr
+  grind
+
 end GoZero.C06.Tie
